@@ -59,3 +59,19 @@ claim("C20",
   "Kani automatic checks (overflow, panic, NaN, bounds) inside every contract proof over the valid-configuration domain; Verus index arithmetic",
   "Every contract harness of L-TS runs with overflow/NaN/panic checks on over all (cycle>0 finite, delay finite, any u32 repeat incl. u32::MAX, any finite time): no overflow (after the fix of Times(u32::MAX)), no NaN; positions in [0,1]; index arithmetic of the lookup cannot overflow for any size (Verus); interpolate_value has no 0/0; Back easings finite.",
   "A1. " + KNOTE, "DESIGN.md section 5 C20")
+claim("C09",
+  "Verus contract on override_start_value (replace, not merge); Kani contracts on the derive-generated update/start_with (modular, callees stubbed), clone harnesses",
+  "update(&self) cannot change the timeline (A5, scanned); the generated update writes every animated field whose sub-timeline yields a value with that value regardless of the field's previous content (Kani on the real expansion, callees scripted), so the result is a function of (timeline, time); override_start_value replaces the override with frame0.with_value(v) and leaves frames/map/timing untouched for every size (Verus); generated start_with reaches every sub-timeline and leaves timescale/boundary times alone; TimeScale and MergedTimeline clones are equivalent.",
+  "A5; struct family bounded (four shapes). " + KNOTE, "DESIGN.md section 5 C09")
+claim("C17",
+  "Kani harnesses on rustc's real expansion of derive(Animate) for a struct family, callees replaced by scripted recording stubs",
+  "For each shape in the family: setters exist for exactly the animated fields (compile-time + exhaustive pattern on the keyframe data), keyframe_from copies the animated fields, build wires each field to its own getter/Default/sub-timeline and stores boundary times and timescale, accessors return the configured timing, update = prepare_frame then assign-iff-Some per field with one common (nt, idx, flag), start_with reaches each sub-timeline, excluded and remote-only fields are never written.",
+  "bounded over programs (four shapes); the proc-macro's own code is not verified, its output is. " + KNOTE, "DESIGN.md section 5 C17")
+claim("C18",
+  "Kani step contract on the per-entity loop body of bevy animate, extracted byte-for-byte each run into a std-only crate with ECS shims",
+  "One execution of the real loop body from EVERY animator state (enabled flag, position, timeline present/absent, any state), any frame delta, any timeline timing: disabled => nothing changes; position grows by exactly delta unless ended; state monotone; Waiting => pos < delay; Ended <=> was Ended or pos >= duration, never under infinite duration; evaluated at the current position iff Playing or ending unplayed; exactly one event iff the state changed, carrying the final state; Ended => component was evaluated at/after the end (after the fix).",
+  "A6 (ECS shims: one entity, recording event writer, symbolic delta), A4' (Duration->f32 monotone). Multi-frame sentences follow by induction over frames (argued, not machine-checked). " + KNOTE, "DESIGN.md section 5 C18")
+claim("C19",
+  "Kani step contracts on the loop bodies of select_animation and chain_animations (same extraction)",
+  "select: same key => nothing restarts; new key => the animator gets a clone of that key's timeline started from the component's current values (evaluating it at time 0 reproduces them: no jump), position 0, state None; key without timeline => timeline None, component untouched. chain: the key moves to next[key] iff the event is Ended for this entity and the chain has an entry for the active key. The 'other animator on the entity' clause is a recorded known finding of the event type (not expressible with one animator per entity).",
+  "A6. " + KNOTE, "DESIGN.md section 5 C19")
